@@ -1,6 +1,7 @@
 (* Tie for C01: totality results proved for other properties, gathered. *)
 From PV Require Import Model.Lexer Model.Filters Model.Exec Spec.SpecWalk.
-From PV Require Export Tie.C16 Tie.C18 Tie.C08 Tie.C01a.
+From PV Require Export Tie.C16 Tie.C18 Tie.C08 Tie.C01a Tie.C01b.
+From PV Require Import Spec.SpecWf.
 Open Scope N_scope.
 
 Lemma tie_walk_never_panics :
@@ -11,3 +12,6 @@ Proof.
   intros se globals steps f st cur safe site H. rewrite (walk_follows se globals steps f st cur safe H).
   destruct (follow cur steps); discriminate.
 Qed.
+
+Lemma tie_compiler_no_panic_holds : forall se : senv, compiler_no_panic se.
+Proof. intros se f name g s. exact (proj2 (tie_compile_never_panics se f name false [] g s)). Qed.
